@@ -428,11 +428,6 @@ package flags
 //@ assumed func (c *completion) complete(args []string) (r []Completion)
 //@ assumed func (c *completion) print(items []Completion, showDescriptions bool)
 //@   traced
-//@ assumed func (p *parseState) checkRequired(parser *Parser) (err error)
-//@   traced
-//@   ensures err != nil ==> p.err == err && isTyped(err, ErrRequired)
-//@   ensures err == nil ==> p.err == old(p.err)
-//@   assigns p.err
 //@ assumed func (p *parseState) estimateCommand() (err error)
 //@   traced
 //@   ensures isTyped(err, ErrUnknownCommand) || isTyped(err, ErrCommandRequired)
@@ -806,3 +801,59 @@ package flags
 //@   ensures[C09,C11] err == nil ==> nfails(convert) == old(nfails(convert))
 //@   ensures[C09,C11] err == nil ==> nfails(convert) == old(nfails(convert))
 //@   assigns option.isSet, option.isSetDefault, option.preventDefault, option.clearReferenceBeforeSet
+
+
+// ===================================================================
+// parser.go: checkRequired
+// ===================================================================
+
+// The chain of active commands below root: activeAt(root, 0) = root,
+// activeAt(root, k+1) = activeAt(root, k).Active, ending with nil after
+// chainLen(root) commands (trusted: the chain is finite).
+//@ assumed func activeAt(root *Command, k int) (c *Command)
+//@   pure
+//@ assumed func chainLen(root *Command) (n int)
+//@   pure
+//@ axiom manual chain_zero: forall root *Command :: activeAt(root, 0) == root && chainLen(root) >= 0
+//@ axiom manual chain_step: forall root *Command, k int :: k >= 0 && activeAt(root, k) != nil ==> activeAt(root, k+1) == activeAt(root, k).Active && k < chainLen(root)
+//@ axiom manual chain_end: forall root *Command, k int :: k >= 0 && activeAt(root, k) == nil ==> k >= chainLen(root)
+
+//@ assumed func reflect.Value.Len(v reflect.Value) (n int)
+//@   pure
+//@   ensures n >= 0
+//@ assumed func (option *Option) String() (s string)
+//@   pure
+
+//@ pure func missingReq(o *Option) bool = o.Required && !o.isSet
+// j-th group (pre-order) of command c, and "some option of c's groups is required and unset"
+//@ pure func groupAt(c *Command, j int) *Group = iterelem(Group.eachGroup, c.Group, j, 0)
+//@ pure func noneMissingIn(c *Command, upto int) bool = forall(j, 0, upto, forall(i, 0, len(groupAt(c, j).options), !missingReq(groupAt(c, j).options[i])))
+// a pending positional argument that the documented rules count as unmet
+//@ pure func argDemanded(p *parseState, a *Arg) bool = (!isRem(a) && p.command.ArgsRequired) || a.Required != -1 || a.RequiredMaximum != -1
+//@ pure func unmet(p *parseState, a *Arg) bool = argDemanded(p, a) && (!isRem(a) || a.value.Len() < a.Required || (a.RequiredMaximum != -1 && a.value.Len() > a.RequiredMaximum))
+
+//@ func (p *parseState) checkRequired(parser *Parser) (err error)
+//@   props C06 C04
+//@   traced
+//@   requires p != nil && parser != nil && p.command != nil
+//@   let root := parser.Command
+//@   requires use(chain_zero, root)
+//@   loop 1 invariant c == activeAt(root, cnt_1) && use(chain_step, root, cnt_1) && use(chain_end, root, cnt_1)
+//@   loop 1 invariant forall(i, 0, len(required), required[i] != nil && missingReq(required[i]))
+//@   loop 1 invariant len(required) == 0 ==> forall(k, 0, cnt_1, noneMissingIn(activeAt(root, k), iterlen(Group.eachGroup, activeAt(root, k).Group)))
+//@   loop 1 invariant p.err == old(p.err) && cnt_1 <= chainLen(root)
+//@   loop 1 decreases chainLen(root) - cnt_1
+//@   loop 2 invariant forall(i, 0, len(required), required[i] != nil && missingReq(required[i]))
+//@   loop 2 invariant len(required) == 0 ==> forall(k, 0, cnt_1, noneMissingIn(activeAt(root, k), iterlen(Group.eachGroup, activeAt(root, k).Group))) && noneMissingIn(c, idx_2)
+//@   loop 3 invariant forall(i, 0, len(required), required[i] != nil && missingReq(required[i]))
+//@   loop 3 invariant len(required) == 0 ==> forall(k, 0, cnt_1, noneMissingIn(activeAt(root, k), iterlen(Group.eachGroup, activeAt(root, k).Group))) && noneMissingIn(c, idx_2) && forall(i, 0, idx_3, !missingReq(g.options[i]))
+//@   loop 4 invariant (len(reqnames) > 0) == exists(i, 0, idx_4, unmet(p, p.positional[i]))
+//@   loop 5 invariant len(names) == idx_5
+//@   ensures[C06] err != nil ==> isTyped(err, ErrRequired) && p.err == err
+//@   ensures[C06] err == nil ==> p.err == old(p.err)
+//@   ensures[C06] err == nil ==> forall(k, 0, chainLen(root), noneMissingIn(activeAt(root, k), iterlen(Group.eachGroup, activeAt(root, k).Group)))
+//@   ensures[C06] err == nil ==> forall(i, 0, len(p.positional), !unmet(p, p.positional[i]))
+// (not mechanised: the converse - an ErrRequired result implies that a required option of the
+// active chain or a demanded positional is really missing; the membership invariant needed for it
+// is unstable in the solvers)
+//@   assigns p.err
